@@ -297,6 +297,7 @@ def backup (o : BackupOpts) (src : List SrcEntry) : Prog Stats := do
   if ← gcIsLocked then .fail .gcLockHeld
   let basisBand ← lastBandId
   let band ← bandCreate                     -- "Create the new band only after finding the basis band!"
+  if ← gcLockListed then .fail .gcLockHeld   -- second look at the lock, now that the band is visible
   let blocks ← listBlocks
   let basis ← match basisBand with
     | some b => listEntries b [slash] (fun _ => false)
